@@ -203,6 +203,14 @@ def ANG(k):
     return ("ang", k) if k != 0 else INV
 
 
+# a difference of absolute angles: unchanged by a rotation of the frame only up to whole turns (a bin that crosses the seam of the
+# direction grid jumps by a period).  Periodic functions and a wrap to a principal interval (Python's %, whose result has the sign
+# of the divisor) make it invariant; magnitudes, comparisons and C-style remainders (sign of the dividend) do not.
+INVMOD = ("invmod",)
+WHOLE_TURNS = "a difference of directions is invariant only up to whole turns, and is used where whole turns matter without being " \
+              "wrapped to a principal interval with % (floored modulo)"
+
+
 def CS(kind, k):
     return ("cs", kind, k)
 
@@ -332,6 +340,8 @@ class FrameAnalysis:
                     return MIXED(f"absolute angle scaled by {numeric}")
                 if ty[0] == "cs":
                     return ty
+                if ty == INVMOD:
+                    return INVMOD
             # product of two vector components or of angles is not covariant
             kinds = {ty[0] for _, ty in non_inv}
             if kinds == {"cs"}:
@@ -373,9 +383,12 @@ class FrameAnalysis:
             heads = {ty[0] for ty in types}
             if heads == {"inv"}:
                 return INV
-            if heads <= {"ang", "inv"}:
-                # constants/invariant offsets keep the rotation weight; weights add
+            if heads <= {"ang", "inv", "invmod"}:
+                # constants/invariant offsets keep the rotation weight; weights add; absolute angles that cancel leave a difference
+                # of directions, which is invariant only up to whole turns
                 k = sum(ty[1] for ty in types if ty[0] == "ang")
+                if k == 0 and heads & {"ang", "invmod"}:
+                    return INVMOD
                 return ANG(k)
             if heads == {"cs"}:
                 kinds = {(ty[1], ty[2]) for ty in types}
@@ -394,7 +407,7 @@ class FrameAnalysis:
             return MIXED("power of a frame-dependent quantity outside a sum of squares")
         if isinstance(t, (sp.cos, sp.sin)):
             ta = self.ftype(t.args[0])
-            if ta in (INV, ZERO_T):
+            if ta in (INV, ZERO_T, INVMOD):
                 return INV
             if ta[0] == "ang":
                 return CS("cos" if isinstance(t, sp.cos) else "sin", ta[1])
@@ -423,12 +436,26 @@ class FrameAnalysis:
             ta = self.ftype(t.args[0])
             if ta in (INV, ZERO_T):
                 return INV
+            if ta == INVMOD:
+                self.problem(WHOLE_TURNS, t)
+                return MIXED("unwrapped difference of directions")
             return ta if ta[0] == "mixed" else MIXED(f"{t.func.__name__} of a frame-dependent quantity")
         f = fname(t)
         if f == "pymod":
             ta = self.ftype(t.args[0])
             self.ftype(t.args[1])
+            if ta == INVMOD:
+                # wrapped to one principal interval: whole turns are gone (only a full period does that)
+                m = t.args[1]
+                pc = pi_coefficient(m) if m.is_number else None
+                full = m == 360 or (pc is not None and pc == (2, 1))
+                return INV if full else INVMOD
             return ta
+        if f in ("fmod", "ext_numpy_fmod", "ext_math_fmod"):
+            ta = self.ftype(t.args[0])
+            if ta in (INV, ZERO_T):
+                return INV
+            return ta       # the remainder keeps the sign of the dividend: whole turns are not removed for negative differences
         if f in ("ite", "where"):
             tc = self.ftype(t.args[0])
             if tc not in (INV, ZERO_T):
@@ -449,6 +476,8 @@ class FrameAnalysis:
             ts = [self.ftype(a) for a in t.args]
             if all(x in (INV, ZERO_T) for x in ts):
                 return INV
+            if INVMOD in ts and all(x in (INV, ZERO_T, INVMOD) for x in ts):
+                self.problem(WHOLE_TURNS, t)
             return MIXED("comparison of frame-dependent quantities")
         if f in ("item", "sel", "isel", "lastiter", "tabrow", "loopprefix", "loopsum", "loopsum_brk", "sum", "nansum",
                  "max", "nanmax", "min", "maximum", "minimum"):
